@@ -1335,7 +1335,18 @@ func (m *machine) doSelect(fr *frame, instr *ssa.Select) value {
 				c.bufVC = append(c.bufVC, m.race.release(th))
 			}
 		} else {
-			w := c.waitingReceiver()
+			// which of several blocked receivers takes the value is a scheduling choice: a receiver that has
+			// arrived at its receive need not have parked yet in a real run, so no queue order can be relied on
+			var cands []*recvWaiter
+			for _, x := range c.recvq {
+				if !x.done {
+					cands = append(cands, x)
+				}
+			}
+			w := cands[0]
+			if len(cands) > 1 {
+				w = cands[m.choose(len(cands), 'c')]
+			}
 			w.done = true
 			w.v = copyVal(states[chosen].v)
 			if m.race != nil {
